@@ -567,6 +567,16 @@ func (s *service) handleSubscribe(ctx context.Context, peerId string, sub *pubsu
 		si.trie.Add(pattern)
 		accepted = append(accepted, pattern)
 	}
+	if len(accepted) == 0 {
+		// nothing was registered (no patterns, only duplicates, or cap hit on the
+		// first one): don't leave a pattern-less stream record / space trie behind,
+		// nothing would ever prune them once the record is gone
+		if len(spacePatterns) == 0 {
+			delete(strm.bySpace, sub.SpaceId)
+		}
+		s.pruneStream(streamId, strm)
+		s.pruneSpace(sub.SpaceId, si)
+	}
 	if len(accepted) > 0 {
 		tags := make([]string, len(accepted))
 		for i, pattern := range accepted {
